@@ -296,6 +296,40 @@ def _ctx_param(body, kind):
     return None
 
 
+def _always_carries(t, leaf, depth=0):
+    """Every alternative value of t contains `leaf` (a value merged from several paths carries it only if each path's does)."""
+    if depth > 40:
+        return False
+    if t == leaf:
+        return True
+    if t[0] == 'lv':
+        return _always_carries(t[3], leaf, depth + 1)
+    if t[0] == 'phi':
+        return all(_always_carries(a, leaf, depth + 1) for a in t[1])
+    kids = []
+    if t[0] in ('field', 'discr', 'item', 'acc'):
+        kids = [t[1]]
+    elif t[0] == 'call':
+        kids = list(t[2])
+    elif t[0] == 'post':
+        kids = [t[1]]
+    elif t[0] in ('tuple', 'array'):
+        kids = list(t[1])
+    elif t[0] == 'agg':
+        kids = [v for _, v in t[3]]
+    elif t[0] == 'obj':
+        kids = [t[1]] + [v for _, v in t[2]]
+    elif t[0] in ('unop', 'cast'):
+        kids = [t[2]]
+    elif t[0] == 'binop':
+        kids = [t[2], t[3]]
+    elif t[0] == 'at':
+        kids = [t[2]]
+    elif t[0] == 'closure':
+        kids = list(t[2])
+    return any(_always_carries(k, leaf, depth + 1) for k in kids if isinstance(k, tuple))
+
+
 @rule('CTX-OPS', {
     'C07': 'an op must carry exactly the dot / clock of the context it was built from',
     'C04': 'add uses the fresh dot, rm uses the observed remove context',
@@ -306,7 +340,9 @@ def ctx_ops(ctx):
     facts = ctx.facts
     for name in ('add', 'add_all', 'rm', 'rm_all'):
         body = ctx.inherent(ORSWOT, name)
-        r = drop_lv(interp(facts, body).ret)
+        r = interp(facts, body).ret
+        while r[0] in ('lv', 'at'):
+            r = r[3] if r[0] == 'lv' else r[2]
         want_variant = 'Add' if name.startswith('add') else 'Rm'
         kind, fld, opf = ('AddCtx', 'dot', 'dot') if want_variant == 'Add' else ('RmCtx', 'clock', 'clock')
         ci = _ctx_param(body, kind)
@@ -316,7 +352,7 @@ def ctx_ops(ctx):
             src_ok = drop_lv(f.get(opf, ('undef',))) == ('field', ('param', ci), fld)
             mem = f.get('members', ('undef',))
             # the listed members are the argument, all of it: no filtering / truncating adaptor between the argument and the op
-            mem_ok = any(st == ('param', 2) for st in subterms(drop_lv(mem))) and not any(
+            mem_ok = _always_carries(mem, ('param', 2)) and not any(
                 st[0] == 'call' and call_name(st) in (LOSSY_ADAPTORS | {'filter_map', 'retain', 'dedup', 'truncate', 'pop', 'remove'})
                 for st in subterms(drop_lv(mem)))
             ok = src_ok and mem_ok
@@ -330,7 +366,7 @@ def ctx_ops(ctx):
     if r[0] == 'agg' and r[2] == 'Up' and ci:
         f = dict(r[3])
         dot_ok = drop_lv(f['dot']) == ('field', ('param', ci), 'dot')
-        key_ok = any(st == ('param', 2) for st in subterms(drop_lv(f['key'])))
+        key_ok = _always_carries(f['key'], ('param', 2))
         alts = phi_alts(f['op'])
         op_ok = bool(alts)
         for a in alts:
@@ -359,7 +395,7 @@ def ctx_ops(ctx):
     ok = False
     if r[0] == 'agg' and r[2] == 'Rm' and ci:
         f = dict(r[3])
-        ok = drop_lv(f['clock']) == ('field', ('param', ci), 'clock') and any(st == ('param', 2) for st in subterms(drop_lv(f['keyset'])))
+        ok = drop_lv(f['clock']) == ('field', ('param', ci), 'clock') and _always_carries(f['keyset'], ('param', 2))
     ctx.check(ok, 'Map::rm', body, 'Rm{clock: ctx.clock, keyset: {key}}', 'Map::rm builds %s' % fmt(r, 5), props=['C07', 'C05'])
 
 
